@@ -18,7 +18,7 @@ N_LAY = (1, 2, 2, 6)
 N_NAMES = (2, 2, 3, 5)
 N_SECS = (2, 2, 3, 4)
 N_KVVALS = (2, 2, 4, 14)
-N_REFS = (4, 4, 8, 12)
+N_REFS = (4, 4, 6, 12)
 N_PRES = (1, 1, 2, 4)
 N_COMMENTS = (1, 1, 3, 8)
 N_ENVNAMES = 2
@@ -44,8 +44,9 @@ FUNCS_FILE = FUNCS + ['qconfig_parse_file']
 
 BATCH = 120          # members per query
 BATCH_SEC = 40       # ... when section lines are involved (qstrdupf's 1024-byte scratch buffer costs memory)
-BATCH_LOOP = 12      # ... for the members whose ${} expansion is expected not to end
+BATCH_LOOP = 12      # ... for the members whose ${} expansion is expected not to end (thorough tier: 24)
 FS_FLAGS = ['--max-field-sensitivity-array-size', '1100']  # qstrdupf's 1024-byte scratch buffer must stay element-wise for constant folding
+MAX_INCLUDES = 4     # scaled knob: -D_INCLUDE_MAX (used by the proposed bounded include splice; ignored by an unbounded one)
 MAX_EXPANSIONS = 8   # scaled knob: -D_VAR_MAX_EXPANSIONS (used by the proposed bounded _parsestr(); ignored by an unbounded one)
 EXPAND_BOUND = MAX_EXPANSIONS + 2    # unwinding bound of the ${} expansion loop (do-while in _parsestr)
 
@@ -101,14 +102,14 @@ def mk(cid, defs, total, members, safety, funcs, desc, owner, unwind):
         kw = dict(checks='safety', safety_owner=owner, unwind_owner=owner)
     else:
         kw = dict(checks='func', unwind_owner=owner)
-    c = Case(cid, 'ini.c', d, unwind=unwind, unwindset={'vf_harness.0': n + 2, 'qstrdupf.0': 2, '_parsestr.2': EXPAND_BOUND},
+    c = Case(cid, 'ini.c', d, unwind=unwind, unwindset={'vf_harness.0': n + 2, 'qstrdupf.0': 2, '_parsestr.2': EXPAND_BOUND, 'qconfig_parse_file.1': MAX_INCLUDES + 4},
              timeout=900, mem_gb=3, object_bits=14, extra_flags=FS_FLAGS, funcs=funcs, family='ini',
              desc='%s; %s of a driver-enumerated family of %d concrete inputs: CBMC executes the real parser on each member (only the member selector is symbolic)' % (desc, what, total), **kw)
     c.n_members = n
     return c
 
 
-def family(prefix, defs, total, safety, funcs, desc, owner, unwind, size=BATCH, special=None):
+def family(prefix, defs, total, safety, funcs, desc, owner, unwind, size=BATCH, special=None, loop_size=None):
     """special: {member index: text} - members that are expected to make the expansion loop run forever; they are
     kept out of the ordinary batches and get small batches of their own (case id '....loop.mNNNNNN')"""
     out = []
@@ -122,8 +123,9 @@ def family(prefix, defs, total, safety, funcs, desc, owner, unwind, size=BATCH, 
         part = normal[k:k + size]
         out.append(mk('%s.m%06d' % (prefix, part[0]), defs, total, part, safety, funcs, desc, owner, unwind))
     sp = sorted(special)
-    for k in range(0, len(sp), BATCH_LOOP):
-        part = sp[k:k + BATCH_LOOP]
+    loop_size = loop_size or BATCH_LOOP
+    for k in range(0, len(sp), loop_size):
+        part = sp[k:k + loop_size]
         out.append(mk('%s.loop.m%06d' % (prefix, part[0]), dict(defs, VF_LOOPBATCH=None), total, part, safety, funcs,
                       '%s; self- or mutually-referential members (expansion does not end on an unbounded _parsestr()): %s' % (desc, ' | '.join('%d=%s' % (i, special[i]) for i in part)), owner, unwind))
     return out
@@ -252,7 +254,7 @@ def tpl_plan(tier):
     else:
         out += [(p, 2) for p in itertools.product(kinds, repeat=2)]
         out += [(p, 1) for p in itertools.product((T_REF, T_LITREF), repeat=3)]
-        for special in (T_ENV, T_CMD):
+        for special in (T_ENV,):
             for pos in range(3):
                 t = [T_REF, T_REF, T_REF]
                 t[pos] = special
@@ -281,7 +283,7 @@ def docinc_plan(tier):
     if tier == 'quick':
         a, c, b, ns = (K_NONE, K_SEC, K_KV), (K_KV, K_REF), (K_NONE, K_REF), 3
     else:
-        a, c, b, ns = (K_NONE, K_SEC, K_KV, K_REF), (K_KV, K_SEC, K_SECEND, K_REF, K_ENV, K_COMMENT, K_BLANK), (K_NONE, K_KV, K_REF), 5
+        a, c, b, ns = (K_NONE, K_SEC, K_KV, K_REF), (K_KV, K_SEC, K_SECEND, K_REF, K_ENV, K_COMMENT, K_BLANK), (K_NONE, K_KV, K_REF), 4
     return [(p, 0, ns) for p in itertools.product(a, c, b)]
 
 
@@ -301,13 +303,17 @@ def c17_cases(tier, ledger=False, prefix='c17.ini', owner='C17'):
     total = N_PRE2[r] * N_NM2[r] * N_POST2[r] * N_INC2[r] * 2
     out += family('%s.incraw.r%d' % (prefix, r), dict({'VF_MODE': 2, 'VF_RICH': r}, **extra), total, True, FUNCS_FILE,
                   'qconfig_parse_file: main file = prefix + "@INCLUDE " + name bytes + suffix, include file raw, present or missing', owner, 40, size=BATCH_SEC)
+    # include cycle: 3 members, a query of their own (case id c17.ini.inccycle.loop.*); the splice loop must end
+    out += family('%s.inccycle' % prefix, dict({'VF_MODE': 6, '_INCLUDE_MAX': MAX_INCLUDES}, **extra), 3, True, FUNCS_FILE,
+                  'qconfig_parse_file: main file "@INCLUDE i", the included file includes itself again: the splice loop ends (at most %d splices)' % MAX_INCLUDES, owner, 40,
+                  special={0: "include file '@INCLUDE i'", 1: "include file '@INCLUDE i\\n'", 2: "include file 'a=b\\n@INCLUDE i\\n'"})
     for (kinds, r) in tpl_plan(tier):
         total = tpl_total(kinds, r)
         d = dict({'VF_MODE': 3, 'VF_RICH': r}, **extra)
         d.update(kdefs(kinds))
         out += family('%s.tpl.%s.r%d' % (prefix, '-'.join(TNAME[k] for k in kinds), r), d, total, True, FUNCS,
                       'expansion templates, lines %s, names and references over {a,b,c}: the ${} expansion loop ends within %d rounds' % ('/'.join(TNAME[k] for k in kinds), MAX_EXPANSIONS), owner, 8 * len(kinds) + 8,
-                      special=tpl_special(kinds, r, total))
+                      special=tpl_special(kinds, r, total), loop_size=BATCH_LOOP if tier == 'quick' else 2 * BATCH_LOOP)
     return out
 
 
@@ -327,7 +333,7 @@ def c20_cases(tier, ledger=False, prefix='c20.ini', owner='C20'):
         d.update(extra)
         out += family('%s.inc.%s.r%d' % (prefix, '-'.join(KNAME[k] for k in kinds), r), d, total, False, FUNCS_FILE,
                       'qconfig_parse_file over the in-memory files: [%s] @INCLUDE i [%s], included file [%s]' % (KNAME[kinds[0]], KNAME[kinds[2]], KNAME[kinds[1]]), owner, 76,
-                      size=BATCH_SEC if K_SEC in kinds else BATCH)
+                      size=30 if K_SEC in kinds else 60)
     return out
 
 
@@ -372,8 +378,8 @@ def info(tier):
                        'C20 @INCLUDE: [line A] @INCLUDE i [line B] with a one-line include file, %d structural variants (padding, absolute/relative path, file present / other name / missing, trailing newlines); '
                        'separator character \'=\'; one include level')
                       % (BATCH, ', '.join('%s %d' % kv for kv in sorted(sz.items())), raw, incraw_rich(tier),
-                         'reference-only lines' if q else 'reference/literal lines, or one ENV/cmd line among reference lines', MAX_EXPANSIONS,
-                         '<= 2 lines' if q else '<= 3 lines', 'small' if q else 'medium', '' if q else '; 3 lines: smallest lists, one layout', 3 if q else 5),
+                         'reference-only lines' if q else 'reference/literal lines, or one ENV line among reference lines', MAX_EXPANSIONS,
+                         '<= 2 lines' if q else '<= 3 lines', 'small' if q else 'medium', '' if q else '; 3 lines: smallest lists, one layout', 3 if q else 4),
             'prestate': 'input family: raw strings / grammar templates / structured documents printed by the harness; table argument NULL (a new table is created)',
             'stubs': ['in-memory file system for qfile_load / qfile_get_dir (main file "f", one include file "./i" or "/i")',
                       'qgetenv: one variable with a per-member name/value or unset; qsyscmd: per-member output or failure (both concrete per member: one symbolic byte in either = no verdict in 300 s)',
